@@ -702,7 +702,8 @@ def main():
     os.environ.pop("TMP", None)
     t0 = time.monotonic()
     with open(out_path, "w") as out:
-        out.write("H hashseed=%s python=%s loglevel=%s clock_skew_days=%d\n" % (os.environ.get("PYTHONHASHSEED"), sys.version.split()[0], level, skew_days))
+        out.write("H hashseed=%s python=%s loglevel=%s clock_skew_days=%d optimize=%d\n" % (
+            os.environ.get("PYTHONHASHSEED"), sys.version.split()[0], level, skew_days, sys.flags.optimize))
         import pulp
 
         default_solver = pulp.LpSolverDefault
